@@ -1317,6 +1317,8 @@ def c10(ix: Index) -> None:
                         seen_a.add(cur)
                         cur = ix.parent_of[cur]
                         anc.append(cur)
+                    if ix.nonpos_timeout(i['ev']) and not ix.sc['handlers'][hi].get('kind', 'async').startswith('s') and res_h is not None and res_h['err'] == 'TimeoutError':
+                        continue  # zero / negative timeout: an async sibling is cut before its first step (judged above)
                     if res_h is not None and res_h['err'] == 'RuntimeError' and _self_recursion_depth(ix, i['ev'], hi) >= 3:
                         ix.C['c10_handlers_refused_by_the_recursion_guard'] += 1
                         continue  # F2c (recorded for C01): the recursion guard refused the handler; nothing to do with the timeout
